@@ -362,6 +362,29 @@ def check(ctx):
                 kw = {k.arg: norm(k.value) for k in c.keywords}
                 hit = kw.get("conversion") == "version.conversion"
         ctx.check(hit, "C18.R3", site, fi.node.body[-1], "the schema is serialized without conversion=version.conversion: the requested dialect is not applied", fi, fi.node, detail="serialize(JsonSchema, ..., conversion=version.conversion)")
+    # nodes rebuilt by a converter stay JsonSchema instances: the recursive conversion only re-visits those
+    n_nodes = 0
+    for fi in model.funcs_in_module(VMOD):
+        if not (fi.name.startswith("to_") or fi.name == "isolate_ref"):
+            continue
+        parents_ = {c_: p_ for p_ in ast.walk(fi.node) for c_ in ast.iter_child_nodes(p_)}
+        for d in ast.walk(fi.node):
+            if isinstance(d, ast.Dict) and any(k is None for k in d.keys) and any(isinstance(k, ast.Constant) for k in d.keys if k is not None):
+                n_nodes += 1
+                p_ = parents_.get(d)
+                wrapped = isinstance(p_, ast.Call) and (dotted(p_.func) or "").endswith("JsonSchema")
+                ctx.check(wrapped, "C18.R3", f"{fi.qualname}:node", d, f"`{short(d, 60)}` copies a schema node into a plain dict: the dialect conversion is applied recursively to JsonSchema instances only, so this node (and the 2020-12 keywords it carries: const, prefixItems, type lists) is emitted unconverted", fi, d, detail="JsonSchema({**node, ...})")
+    cmp_ = model.func(f"{SMOD}.compare_schemas")
+    parents_ = {c_: p_ for p_ in ast.walk(cmp_.node) for c_ in ast.iter_child_nodes(p_)}
+    for d in ast.walk(cmp_.node):
+        if isinstance(d, ast.Dict) and any(k is None for k in d.keys) and any(isinstance(k, ast.Constant) for k in d.keys if k is not None):
+            n_nodes += 1
+            p_ = parents_.get(d)
+            ctx.check(isinstance(p_, ast.Call) and (dotted(p_.func) or "").endswith("JsonSchema"), "C18.R3", f"{cmp_.qualname}:node", d, f"`{short(d, 60)}`: a property schema merged for definitions_schema is rebuilt as a plain dict and escapes the dialect conversion", cmp_, d, detail="JsonSchema({**node, ...})")
+    rets = [r for r in ast.walk(cmp_.node) if isinstance(r, ast.Return) and "merged" in norm(r.value)]
+    ctx.check(bool(rets) and all("JsonSchema(merged)" in norm(r.value) for r in rets), "C18.R3", f"{cmp_.qualname}:merged", rets[0] if rets else cmp_.node.body[0],
+              "the definition merged from both directions is returned as a plain dict: definitions_schema(..., version=OPEN_API_3_0 / DRAFT_7) then returns 2020-12 keywords for every type used in both directions", cmp_, cmp_.node, detail="JsonSchema(merged)")
+    ctx.ok("C18.R3", f"{VMOD}:rebuilt-nodes", f"{n_nodes} schema node(s) rebuilt by the converters, all as JsonSchema")
     tm = model.mod(TMOD)
     reg = any(isinstance(s, ast.Expr) and isinstance(s.value, ast.Call) and dotted(s.value.func) == "serializer" and "source=JsonSchema" in norm(s.value) for s in tm.tree.body)
     ctx.check(reg, "C18.R3", f"{TMOD}:serializer(JsonSchema)", None, "JsonSchema has no registered dict serializer: nested schema objects would not be re-visited", None, None, detail="serializer(Conversion(dict, source=JsonSchema))")
@@ -389,4 +412,6 @@ def mutants(mb):
     mb.add_text("not-self-referential", V, "sub_conversion=LazyConversion(lambda: tmp)", "sub_conversion=None", "C18.R3", "conversion")
     mb.add_text("schema-no-conversion", S, "        check_type=True,\n        conversion=version.conversion,\n        default_conversion=converters.default_serialization,\n        fall_back_on_any=True,\n    )\n    if with_schema", "        check_type=True,\n        default_conversion=converters.default_serialization,\n        fall_back_on_any=True,\n    )\n    if with_schema", "C18.R3", "_schema")
     mb.add_text("unsupported-list-shrunk", V, 'OPEN_API_3_0_UNSUPPORTED = [\n    "dependentRequired",\n    "unevaluatedProperties",\n    "additionalItems",\n]', 'OPEN_API_3_0_UNSUPPORTED = [\n    "dependentRequired",\n    "unevaluatedProperties",\n]', "C18.R1", "OPEN_API_3_0:additionalItems")
+    mb.add_text("nullable-on-plain-copy", V, '        result.setdefault("nullable", True)\n        result["anyOf"] = [a for a in result["anyOf"] if a != {"type": "null"}]', '        any_of = [a for a in result["anyOf"] if a != {"type": "null"}]\n        if len(any_of) == 1 and "type" in any_of[0]:\n            any_of = [{**any_of[0], "nullable": True}]\n        else:\n            result.setdefault("nullable", True)\n        result["anyOf"] = any_of', "C18.R3", "node")
+    mb.add_text("merged-definition-plain-dict", S, "        return JsonSchema(merged) if isinstance(write, JsonSchema) else merged\n", "        return merged\n", "C18.R3", "merged")
     mb.add_text("neg-reordered-blocks", V, '    if "examples" in result:\n        result.setdefault("example", result.pop("examples")[0])\n    if "const" in result:\n        result.setdefault("enum", [result.pop("const")])\n', '    if "const" in result:\n        result.setdefault("enum", [result.pop("const")])\n    if "examples" in result:\n        result.setdefault("example", result.pop("examples")[0])\n', negative=True)
